@@ -71,7 +71,7 @@ fn dump(node: &NodeRef) -> Value {
     match node.data() {
         NodeData::Text(t) => json!({"k": "text", "name": "", "attrs": [], "kids": [], "text": cps(&t.borrow())}),
         NodeData::Element(e) => {
-            let attrs: Vec<Value> = e.attrs.borrow().iter().map(|a| json!({"n": &*a.name.local, "v": cps(&a.value)})).collect();
+            let attrs: Vec<Value> = e.attrs.borrow().iter().map(|a| json!({"n": &*a.name.local, "ns": !a.name.ns.is_empty(), "v": cps(&a.value)})).collect();
             let kids: Vec<Value> = node.children().map(|c| dump(&c)).collect();
             json!({"k": "el", "name": &*e.name.local, "attrs": attrs, "kids": kids, "text": []})
         }
@@ -86,7 +86,7 @@ const ELEMENTS: &[&str] = &["b", "i", "a", "img", "code", "span", "div", "p", "u
                             "table", "tr", "td", "font", "strike", "script", "style", "x-foo", "svg", "mx-reply", "details", "summary", "del", "em",
                             "h2", "h3", "h4", "h5", "h6", "sup", "sub", "u", "strong", "s", "thead", "tbody", "th", "caption", "center", "form", "iframe", "math"];
 const ATTRS: &[&str] = &["href", "src", "class", "data-x", "alt", "target", "title", "color", "width", "data-mx-color", "data-mx-maths",
-                         "onclick", "start", "style", "zzz", "height", "id", "aaa"];
+                         "onclick", "start", "style", "zzz", "height", "id", "aaa", "xlink:href", "xml:lang"];
 const VALUES: &[&str] = &["http://x/", "https://x/", "javascript:alert(1)", "JAVASCRIPT:x", " javascript:x", "mxc://s/m", "matrix:u/a:b", "ftp://x", "mailto:a@b",
                           "magnet:?x", "tel:1", "/rel", "", "x", "language-rust", "language-rust evil", "evil", "language-evil1 language-c", "xy language-a",
                           "1", "#fff", "data:text/html,x", "http:", "httpx://y", "java\tscript:x",
@@ -210,6 +210,9 @@ pub fn run(args: &[String]) {
         r##"<font color="#f00" data-x="1">c<strike>s</strike></font>"##.into(), r#"<code class="language-rust evil">x</code><code class="evil">y</code>"#.into(),
         r#"<script>alert(1)</script><style>x</style><b>ok</b>"#.into(), r#"<p><p>nested</p><a href="https://x/"><a href="https://y/">aa</a></a>"#.into(),
         r#"<table><tr><td>c</td></tr>stray</table>"#.into(), r#"<svg><a href="javascript:x">s</a></svg>"#.into(),
+        // attributes in a namespace inside foreign content: written back with their prefix
+        r#"<svg><a xlink:href="https://a.b/">t</a></svg>"#.into(), r#"<math><a xlink:href="https://a.b/" xml:lang="en">t</a></math>"#.into(),
+        r#"<svg><img xlink:href="mxc://s/m" src="mxc://s/m"></svg><b xml:lang="x">b</b>"#.into(),
     ];
     for d in [1usize, 2, 3, 98, 99, 100, 101, 102, 110] {
         probes.push(format!("{}x{}", "<div>".repeat(d), "</div>".repeat(d)));
